@@ -7,7 +7,7 @@
     [stream .. 0 texts] = (the items that reach the batcher, the content of iter_err at the end);
     [delivered .. 0 texts] = the texts whose windows are delivered, with position and items. *)
 From Coq Require Import Permutation.
-From TU Require Import Base C16_Model C16_UAX29 Inference_Model Inference_Proofs Inference_Unfused Pipe_Model.
+From TU Require Import Base C16_Model C16_UAX29 Inference_Model Inference_Proofs Inference_Unfused Inference_Check Pipe_Model.
 From TU Require C06_Model C09_Proofs.
 Local Open Scope nat_scope.
 
@@ -196,6 +196,24 @@ Theorem fused_is_pipe : forall (B : Type) (f : nat * str -> B) (d : nat * str) t
 Proof. exact fused_is_pipe_model. Qed.
 Print Assumptions fused_is_pipe.
 
+(** the executable statement evaluated on every implementation output (every window of every delivered text
+    exactly once with ids, tags and boundaries; no empty batch; limit; order and greediness without sort;
+    accessors; end state) holds of the model's own output, for EVERY input value; the model agrees with itself
+    under the correspondence relation *)
+Theorem check_run_inference : forall v, check_inference v (run_inference v) = true.
+Proof. exact check_run_inference_l. Qed.
+Print Assumptions check_run_inference.
+
+Theorem agree_run_inference : forall v, agree_inference v (run_inference v) (run_inference v) = true.
+Proof. exact agree_run_inference_l. Qed.
+Print Assumptions agree_run_inference.
+
+(** what the main clause of an accepting verdict means: the decoded items are exactly the model's, each once —
+    token ids, (item_idx, window_idx) and all eight boundaries ([key]; an InferenceItem carries no string range) *)
+Theorem same_items_sound : forall l m, same_itemsb l m = true -> Permutation (map key l) (map key m).
+Proof. exact same_itemsb_sound. Qed.
+Print Assumptions same_items_sound.
+
 (** * Examples: the premises are met by non-trivial inputs *)
 (** a "tokenizer" that returns the code points; character windows of 4 with context 1;
     texts "abcdef", Err, "xy" *)
@@ -222,4 +240,30 @@ Proof. vm_compute. reflexivity. Qed.
 Example ex_bad_config :
   stream 0%N 2%N 1%N false ex_tok 0 [Some []; Some [97]%N; Some []]
   = ([mki [] 0 0 zero_window], Some (EWin 1 1%N [])).
+Proof. vm_compute. reflexivity. Qed.
+
+(** a harness input (the first D17 witness of corpus/C16: byte tokenizer, character windows 4 / 1, two worker
+    threads, texts "ab", Err, "cd"): one batch with the one window of "ab", then the error of position 1 *)
+Local Open Scope Z_scope.
+Definition ex_v : val :=
+  L [I 10;
+     L [I 0; I 0; I 0; I 0; L []; L [L [I 60; I 112; I 97; I 100; I 62]]; L [I 60; I 112; I 97; I 100; I 62];
+        L []; L []; L [I 60; I 117; I 110; I 107; I 62]; L []];
+     L [I 0; I 0; I 4; I 1; I 0]; L [I 2; I 1; I 2; I 0; I 1; I 0];
+     L [L [I 1; L [I 97; I 98]]; L [I 0]; L [I 1; L [I 99; I 100]]]].
+Example ex_v_run :
+  run_inference ex_v =
+  L [I 1;
+     L [L [I 1; L [I 2]; L [L [I 97; I 98]]; L [L [I 0; I 0]];
+           L [L [L [I 97; I 98]; I 0; I 0; L [I 0; I 0; I 2; I 2]; L [I 0; I 0; I 2; I 2]; I 2; I 2; I 2]]]];
+     L [I 0; I 1]; L [L [I 0; I 1]; L [I 0; I 1]]].
+Proof. vm_compute. reflexivity. Qed.
+(** what the code before the repair D17 returned for it with two threads is rejected *)
+Example ex_v_d17_rejected :
+  check_inference ex_v
+    (L [I 1;
+        L [L [I 2; L [I 2; I 2]; L [L [I 97; I 98]; L [I 99; I 100]]; L [L [I 0; I 0]; L [I 1; I 0]];
+              L [L [L [I 97; I 98]; I 0; I 0; L [I 0; I 0; I 2; I 2]; L [I 0; I 0; I 2; I 2]; I 2; I 2; I 2];
+                 L [L [I 99; I 100]; I 1; I 0; L [I 0; I 0; I 2; I 2]; L [I 0; I 0; I 2; I 2]; I 2; I 2; I 2]]]];
+        L [I 0; I 1]; L [L [I 0; I 1]; L [I 0; I 1]]]) = false.
 Proof. vm_compute. reflexivity. Qed.
